@@ -185,6 +185,31 @@ Theorem c18_translated_extract_next_is_model :
   forall bs p c, g_extract_next bs p c = extract_next bs p c.
 Proof. exact translated_extract_next_is_model. Qed.
 
+(* the iterator glue is translated too: `WinconBytes::new` (a derived Default) is the hand model's initial state, and
+   new().extract_next(bytes).collect() written over the TRANSLATED `extract_next` / `WinconBytesIter::next`
+   ([gt_extract_next]: reset the capture, copy parser and capture into the iterator, drain it, carry what it leaves) is the
+   drive above *)
+Theorem c18_translated_wincon_bytes_new : g_wb_new = mkWB parser_new capture_default.
+Proof. exact g_wb_new_eq. Qed.
+
+Theorem c18_translated_extract_next_drive :
+  forall bs wb,
+  gt_extract_next bs wb =
+  match g_extract_next bs (wb_parser wb) (wb_capture wb) with
+  | Some (its, p, c) => Some (its, mkWB p c)
+  | None => None
+  end.
+Proof. exact gt_extract_next_eq. Qed.
+
+Theorem c18_translated_new_extract_next_is_model :
+  forall bs,
+  gt_extract_next bs g_wb_new =
+  match extract_next bs parser_new capture_default with
+  | Some (its, p, c) => Some (its, mkWB p c)
+  | None => None
+  end.
+Proof. exact translated_wb_extract_next_is_model. Qed.
+
 (* ---- the Rust functions themselves -----------------------------------------------------
    Generated/WinconStreamFn.v is the TRANSLATION (tools/rs2v, tools/gen_fn_stream.py) of
    cap_wincon_color / write_all / write / write_fmt of crates/anstream/src/wincon.rs and of the
@@ -216,3 +241,34 @@ Theorem c18_translated_stream_is_model :
   match g_wcs_run x ops with Some (x1, rs) => Some (wcs_state x1, wcs_raw x1, rs) | None => None end
   = wc_run_ops (wcs_state x) (wcs_raw x) ops.
 Proof. exact translated_wincon_stream_is_model. Qed.
+
+(* the constructors / accessors of WinconStream are translated too (Generated/WinconStreamFn.v): `new` starts from the
+   initial state, which is the TRANSLATED `WinconBytes::new` (c18_translated_wincon_bytes_new); a stream made by `new`,
+   driven by any operations and taken apart with `into_inner` is the hand model run from its initial state ... *)
+Theorem c18_translated_new_run_into_inner : forall cf raw ops,
+  match g_wcs_run (g_wcs_new cf raw) ops with
+  | Some (x1, rs) => Some (wcs_state x1, g_wcs_into_inner cf x1, rs)
+  | None => None
+  end = wc_run_ops ws_new raw ops.
+Proof. exact translated_wincon_new_run_into_inner. Qed.
+
+Theorem c18_translated_initial_state_is_new : ws_new = mkWS (wb_parser g_wb_new) (wb_capture g_wb_new).
+Proof. exact ws_new_is_translated_new. Qed.
+
+(* ... and `lock` (Stdout and Stderr) hands the state at the time of the call to the locked stream: operations, lock, more
+   operations = the same operations without the lock *)
+Theorem c18_translated_lock_preserves_state : forall cf x ops1 ops2,
+  match g_wcs_run x ops1 with
+  | Some (x1, rs1) =>
+      match g_wcs_run (g_wcs_lock_stdout cf x1) ops2 with Some (x2, rs2) => Some (x2, rs1 ++ rs2) | None => None end
+  | None => None
+  end = g_wcs_run x (ops1 ++ ops2) /\
+  match g_wcs_run x ops1 with
+  | Some (x1, rs1) =>
+      match g_wcs_run (g_wcs_lock_stderr cf x1) ops2 with Some (x2, rs2) => Some (x2, rs1 ++ rs2) | None => None end
+  | None => None
+  end = g_wcs_run x (ops1 ++ ops2).
+Proof. exact translated_wincon_lock_preserves_state. Qed.
+
+Theorem c18_translated_is_terminal : forall cf x, g_wcs_is_terminal cf x = ac_tty cf.
+Proof. exact g_wcs_is_terminal_eq. Qed.
